@@ -518,6 +518,9 @@ pub fn c05_suite(ctx: &Ctx) -> ShardOut {
     if ctx.shard == 0 {
         grid(&mut out);
         out.notes.add("grid-cases", out.cov.monitored);
+        if !cfg!(miri) {
+            lfu_suites::large_sketch_sweep("C05", &mut out, &[65537, 131073, (1 << 20) + 1, 100_000]);
+        }
     }
     // 2. operation sequences on every accepted cache configuration: engine with the
     //    panic monitor; includes resize to 0 / 1 / 2^16 and all *_or_put / lru / mru accessors
